@@ -181,7 +181,7 @@ def h_fock_state(g, n, D, pure, hbar_sym=False):
             g.eq("parity%s" % (list(modes),), par, sum((-1) ** (a + b) * fn.real(red[a, a, b, b]) for a in range(D) for b in range(D)))
 
 
-def h_backend_state_modes(g, kind, modes, n):
+def h_backend_state_modes(g, kind, modes, n, pure=False):
     """backend.state(modes) returns the requested modes, in the requested order, with their own data"""
     if kind == "gaussian":
         be = C.gauss_backend(g, n)
@@ -199,14 +199,24 @@ def h_backend_state_modes(g, kind, modes, n):
     elif kind == "fock":
         from . import c03
         from strawberryfields.backends.fockbackend import ops as fo
-        be = c03.fock_backend(g, n, 2, pure=False)
-        rho = be.circuit._state.copy()
+        be = c03.fock_backend(g, n, 2, pure=pure)
+        if pure:
+            psi = be.circuit._state.copy().reshape(-1)
+            rho = FH.from_matrix(np.outer(psi, fn.conj(psi)), n, 2)
+        else:
+            rho = be.circuit._state.copy()
         st = be.state(modes=list(modes))
+        # the object must know what it holds: a ket has one axis per mode, a density matrix two
+        g.fact("is_pure matches the data held", np.ndim(st.data) == (len(modes) if st.is_pure else 2 * len(modes)),
+               detail="is_pure=%r data.ndim=%d modes=%d" % (st.is_pure, np.ndim(st.data), len(modes)))
+        if np.ndim(st.data) != (len(modes) if st.is_pure else 2 * len(modes)):
+            return
         red = FH.ref_partial_trace(rho, n, 2, [m for m in range(n) if m not in modes])
         # requested order: axes of the reduced state permuted accordingly
         asc = sorted(modes)
         perm = [x for m in modes for x in (2 * asc.index(m), 2 * asc.index(m) + 1)]
         g.eq("dm", st.dm(), np.transpose(red, perm))
+        g.eq("trace", st.trace(), np.trace(FH.as_matrix(red, len(modes), 2)))
         g.fact("mode names", [st._modemap[i] for i in range(len(modes))] == ["q[%d]" % m for m in modes],
                detail=repr(st._modemap))
 
@@ -242,3 +252,9 @@ def build(ctx):
                 ctx.add("%s.state(modes=%s)" % (kind, list(modes)), h_backend_state_modes, {"kind": kind, "modes": list(modes), "n": nb},
                         modules=lambda: state_modules() + C.gauss_modules() + C.fock_modules(),
                         functions=["GaussianBackend.state", "FockBackend.state"], bounds={"modes": nb, "requested": list(modes)})
+                if kind == "fock" and (ctx.thorough or modes in ((0,), (2,), (1, 0), (2, 0, 1))):
+                    ctx.add("fock.pure.state(modes=%s)" % (list(modes),), h_backend_state_modes,
+                            {"kind": kind, "modes": list(modes), "n": nb, "pure": True},
+                            modules=lambda: state_modules() + C.gauss_modules() + C.fock_modules(),
+                            functions=["FockBackend.state", "BaseFockState.{dm,trace,is_pure}"],
+                            bounds={"modes": nb, "requested": list(modes), "register": "pure state (symbolic ket)"})
